@@ -179,8 +179,9 @@ def rl_class_steps(acts):
 
 DENOM_BASES = ["plain", "pool3", "lp3", "vouchershape", "two-id", "two-plain", "even-id", "lp5", "shortport", "single-id"]
 DENOM_ROUTES = {
-    "quick": ["ab", "ab-ba", "ab-ba2", "ab-bc-cb-ba", "b:ba-ab2"],
-    "thorough": ["ab", "ab-ba", "ab-ba2", "ab-bc", "ab-bc-cb", "ab-bc-cb-ba", "ab-ba2-ab2", "b:bc-cb", "b:ba-ab2"],
+    "quick": ["ab", "ab-ba", "ab-ba2", "ab-bc-cb-ba", "b:ba-ab2", "ab-badrcv", "ab-overdraw"],
+    "thorough": ["ab", "ab-ba", "ab-ba2", "ab-bc", "ab-bc-cb", "ab-bc-cb-ba", "ab-ba2-ab2", "b:bc-cb", "b:ba-ab2",
+                 "ab-badrcv", "ab-overdraw", "ab-ba-badrcv"],
 }
 DENOM_KF_BASES = ["lp3", "vouchershape", "lp5", "two-id"]    # canonical failing members of the class of KF-C42-1
 DENOM_MC_WITNESS = ["send-escrow", "send-burn", "recv-mint", "recv-unescrow", "recv-unescrow-fails", "send-invalid",
@@ -200,6 +201,16 @@ def run_mc_denom(tier, d):
         raise vk.Infra("vacuous model check (RLDenom): never witnessed %s" % missing)
     return {"distinct": r["distinct"], "generated": r["generated"], "depth": r["depth"], "witnessed": sorted(seen),
             "constants": {"bases": DENOM_BASES, "routes": DENOM_ROUTES["thorough"]}}
+
+
+_BIN = {}
+
+
+def harness_binary():
+    """Build the driver once per process (replays and probes reuse it)."""
+    if "bin" not in _BIN:
+        _BIN["bin"] = vk.build_harness("transfermw")
+    return _BIN["bin"]
 
 
 def denom_table(workdir, bases, routes, excl, tag):
@@ -536,7 +547,7 @@ def run_family(tier, seed, binary=None):
                guarded(lambda: scheds.__setitem__("PFM", gen_pfm(tier, seed, workdir)) if only in ("", "PFM") else None),
                guarded(lambda: scheds.__setitem__("DENOM", gen_denom(tier, seed, workdir, excl["C42"])) if only in ("", "DENOM") else None)]
     if binary is None:
-        binary = vk.build_harness("transfermw")
+        binary = harness_binary()
     for th in threads[3:]:
         th.join()
     if errors:
@@ -614,7 +625,7 @@ def replay(schedule, binary=None):
     shutil.rmtree(workdir, ignore_errors=True)
     os.makedirs(workdir)
     if binary is None:
-        binary = vk.build_harness("transfermw")
+        binary = harness_binary()
     groups = drive(binary, [schedule], workdir, "replay", 1)
     fails, _ = validate(groups, workdir, "replay")
     return [f for f in fails if f[2] in PROPS], groups
